@@ -50,8 +50,13 @@ package smtp
 //@   prop C19 C05
 //@   requires r != nil && r.R != nil
 //@   requires r.curLineLength >= 0 && r.LineLimit >= 0 && r.LineLimit < 9223372036854775807
-//@   modifies r.curLineLength, r.rest, b[*]
+//@   requires the-remembered-error-is-the-transports: r.err != ErrTooLongLine
+//@   modifies r.curLineLength, r.rest, r.err, b[*]
+//@   ensures the-remembered-error-is-the-transports: r.err != ErrTooLongLine
 //@   ensures count: 0 <= n && n <= len(b)
+//@   ensures @C02,C05,C07,C19 a-failed-read-is-remembered: err != nil && err != ErrTooLongLine ==> r.err == err
+//@   ensures @C02,C05,C07,C19 a-failed-read-is-never-forgotten: old(r.err) != nil ==> r.err == old(r.err)
+//@   ensures @C02,C05,C07,C19 after-a-failed-read-nothing-more-is-read-from-the-connection: old(r.err) != nil && len(old(r.rest)) == 0 ==> n == 0 && (err == old(r.err) || err == ErrTooLongLine)
 //@   ensures stable: r.LineLimit == old(r.LineLimit) && r.curLineLength >= 0
 //@   ensures sticky: old(r.curLineLength) > r.LineLimit && r.LineLimit > 0 ==> err == ErrTooLongLine && n == 0
 //@   ensures refusal-justified: err == ErrTooLongLine ==> r.LineLimit > 0 && n == 0 && old(r.curLineLength) > r.LineLimit
